@@ -570,11 +570,42 @@ theorem fieldWriteB_sound {cfg : Config} {N old new : Nat} (h : fieldWriteB cfg 
   exact h
 
 /-- the executable check decides (soundly) the write relation the theorems assume -/
+theorem mixesOkFrom_sound (a b : Nat) : ∀ (xs ys : List Bytes) (j : Nat), mixesOkFrom a b j xs ys = true →
+    ys.length = xs.length ∧ ∀ k, j + k ≠ a → j + k ≠ b → ys[k]? = xs[k]? := by
+  intro xs
+  induction xs with
+  | nil =>
+    intro ys j h
+    cases ys with
+    | nil => exact ⟨rfl, fun _ _ _ => rfl⟩
+    | cons y ys => simp [mixesOkFrom] at h
+  | cons x xs ih =>
+    intro ys j h
+    cases ys with
+    | nil => simp [mixesOkFrom] at h
+    | cons y ys =>
+      simp only [mixesOkFrom, Bool.and_eq_true, Bool.or_eq_true, decide_eq_true_eq] at h
+      obtain ⟨h0, hrest⟩ := h
+      obtain ⟨hl, hk⟩ := ih ys (j + 1) hrest
+      refine ⟨by simp [hl], ?_⟩
+      intro k h1 h2
+      cases k with
+      | zero =>
+        rcases h0 with (h | h) | h
+        · exact absurd h (by simpa using h1)
+        · exact absurd h (by simpa using h2)
+        · simp [h]
+      | succ k =>
+        simp only [List.getElem?_cons_succ]
+        exact hk k (by omega) (by omega)
+
+/-- the executable check decides (soundly) the write relation the theorems assume -/
 theorem epochWritesB_sound' {cfg : Config} {N : Nat} {st st' : State} (h : epochWritesB cfg N st st' = true) :
     EpochWrites cfg N st st' := by
   unfold epochWritesB at h
   simp only [Bool.and_eq_true, decide_eq_true_eq, List.all_eq_true] at h
-  obtain ⟨⟨⟨⟨hlen, hold⟩, hnew⟩, hml⟩, hmix⟩ := h
+  obtain ⟨⟨⟨hlen, hold⟩, hnew⟩, hmix⟩ := h
+  obtain ⟨hml, hmk⟩ := mixesOkFrom_sound _ _ _ _ 0 hmix
   refine ⟨hlen, ?_, ?_, ?_, hml, ?_⟩
   · intro i v v' hv hv'
     have hi : i < st.validators.length := (List.getElem?_eq_some_iff.mp hv).1
@@ -594,14 +625,7 @@ theorem epochWritesB_sound' {cfg : Config} {N : Nat} {st st' : State} (h : epoch
     rw [hv'] at this
     simpa using this
   · intro j h1 h2
-    by_cases hj : j < st.randao_mixes.length
-    · have := hmix j (List.mem_range.mpr hj)
-      simp only [Bool.or_eq_true, decide_eq_true_eq] at this
-      rcases this with (h | h) | h
-      · exact absurd h h1
-      · exact absurd h h2
-      · exact h
-    · rw [List.getElem?_eq_none (by omega), List.getElem?_eq_none (by omega)]
+    exact hmk j (by simpa using h1) (by simpa using h2)
 
 theorem inEpochHypsB_sound {st st' : State} (h : inEpochHypsB st st' = true) :
     st'.validators = st'.validators.take st.validators.length ++ st'.validators.drop st.validators.length ∧
